@@ -30,6 +30,9 @@ type RemoteOp struct {
 	Node  int        `json:"node,omitempty"`
 	Ref   string     `json:"ref,omitempty"`
 	Steps []SeekStep `json:"steps,omitempty"`
+	// Ref2 (fetchref): a second reference is fetched, read and closed while the body of the
+	// first is still open and unread
+	Ref2 string `json:"ref2,omitempty"`
 }
 
 func (o RemoteOp) String() string {
@@ -37,6 +40,9 @@ func (o RemoteOp) String() string {
 	case "tag", "pushref":
 		return fmt.Sprintf("%s(n%d,%q)", o.Op, o.Node, o.Ref)
 	case "resolve", "fetchref":
+		if o.Ref2 != "" {
+			return fmt.Sprintf("%s(%q, meanwhile %q)", o.Op, o.Ref, o.Ref2)
+		}
 		return fmt.Sprintf("%s(%q)", o.Op, o.Ref)
 	case "fetchrefdigest":
 		return fmt.Sprintf("fetchrefdigest(%q@n%d)", o.Ref, o.Node)
@@ -182,6 +188,9 @@ func (p *remoteProp) Gen(r *Rand, tier string, idx int) any {
 			}
 		case x < 17:
 			op = RemoteOp{Op: "fetchref", Ref: pick(r, tags)}
+			if r.Chance(0.3) {
+				op.Ref2 = pick(r, tags)
+			}
 			if r.Chance(0.4) {
 				// digest-form reference (plain digest, or tag@digest)
 				op = RemoteOp{Op: "fetchrefdigest", Node: r.Intn(nn)}
@@ -525,6 +534,13 @@ func (p *remoteProp) step(ctx context.Context, rc *RunCtx, rp *RemoteParams, g *
 	case "fetchref":
 		var rc2 io.ReadCloser
 		gotDesc, rc2, err = repo.FetchReference(ctx, op.Ref)
+		if err == nil && op.Ref2 != "" {
+			// another fetch comes and goes before this body is read
+			if d3, rc3, err3 := repo.FetchReference(ctx, op.Ref2); err3 == nil {
+				content.ReadAll(rc3, d3)
+				rc3.Close()
+			}
+		}
 		if err == nil {
 			gotBytes, err = content.ReadAll(rc2, gotDesc)
 			rc2.Close()
